@@ -65,3 +65,9 @@ Print Assumptions C19_statement_verifiers.
 Theorem C19_semantic_reg_structural : forall O P c, reg_wf' O P c -> lib_or_ok (verify_reg_rec O P c).
 Proof. exact reg_rejections_in_hierarchy'. Qed.
 Print Assumptions C19_semantic_reg_structural.
+
+(* the structural hypotheses are satisfiable: a real packed self-attestation statement meets them *)
+From PW Require Import Proofs.Examples2.
+Example C19_wf_nonvacuous : packed_wf px_oracles 0 px_stmt px_key [].
+Proof. exact packed_example_wf. Qed.
+Print Assumptions C19_wf_nonvacuous.
